@@ -1133,6 +1133,56 @@ class Exec:
             for q2, c in self.branch(q, self.truth(q, t), f'L{s.lineno}'):
                 yield from self.exec_block(s.body if c else s.orelse, q2)
 
+    def st_Delete(self, s, p):
+        from . import seqops
+        paths = [(p, NORMAL)]
+        for tgt in s.targets:
+            nxt = []
+            for q, o in paths:
+                if o is not NORMAL:
+                    nxt.append((q, o))
+                    continue
+                if isinstance(tgt, ast.Name):
+                    if tgt.id in q.env:
+                        del q.env[tgt.id]
+                        nxt.append((q, NORMAL))
+                    else:
+                        nxt.append((q, Raised('UnboundLocalError', node=s)))
+                elif isinstance(tgt, ast.Subscript):
+                    for q1, base in self.ev(tgt.value, q):
+                        if isinstance(base, Raised):
+                            nxt.append((q1, base))
+                            continue
+                        if isinstance(tgt.slice, ast.Slice):
+                            parts = [tgt.slice.lower, tgt.slice.upper, tgt.slice.step]
+                            exprs = [x for x in parts if x is not None]
+                            for q2, vals in self.ev_list(exprs, q1):
+                                if isinstance(vals, Raised):
+                                    nxt.append((q2, vals))
+                                    continue
+                                it = iter(vals)
+                                lo, hi, st = [next(it) if x is not None else None for x in parts]
+                                empty = q2.alloc(HList([]), 'list')
+                                nxt.extend(seqops.set_slice(self, q2, base, lo, hi, st, empty, tgt))
+                        else:
+                            for q2, idx in self.ev(tgt.slice, q1):
+                                if isinstance(idx, Raised):
+                                    nxt.append((q2, idx))
+                                    continue
+                                if isinstance(base, VRef) and isinstance(q2.heap[base.ref], HList):
+                                    for q3, i in seqops.norm_index(self, q2, idx, len(q2.heap[base.ref].items), tgt):
+                                        if isinstance(i, Raised):
+                                            nxt.append((q3, i))
+                                        else:
+                                            del q3.heap[base.ref].items[i]
+                                            nxt.append((q3, NORMAL))
+                                else:
+                                    raise EngineError('del of an item of a non-list')
+                else:
+                    raise EngineError('del target')
+            paths = nxt
+        yield from paths
+
     def st_With(self, s, p):
         if len(s.items) != 1:
             raise EngineError('with statement with several items')
